@@ -679,7 +679,11 @@ def gen_cases(chk, tier, collect=None):
                 if isinstance(op, Exception):
                     chk.proof_break("catalogue", f"cannot construct {key} b={b}: {op!r}")
                     continue
-                D = op.to_dense().to(F64)
+                try:
+                    D = op.to_dense().to(F64)
+                except Exception as e:   # the densification itself is C01's business; the instance is unusable here
+                    chk.count(f"catalogue-skip:{key}:b={shp(b)}:{type(e).__name__}")
+                    continue
                 shape = tuple(op.shape)
                 cname = class_name(op)
                 tagb = f"b={shp(b)}" + ("" if n == 3 else f"|n={n}")
